@@ -12,7 +12,7 @@ Inductive piece : Type :=
 | PLit (l : list Z)
 | PPat (start n : Z).      (* pat_byte start, pat_byte (start+1), ... (n bytes) *)
 
-Definition pat_byte (i : Z) : Z := Z.land (Z.shiftr (i * 2654435761) 13) 255.
+Definition pat_byte (i : Z) : Z := Z.land (i + Z.shiftr i 8 + Z.shiftr i 16) 255.
 
 Fixpoint pat_from (i : Z) (n : nat) : list Z :=
   match n with O => [] | S k => pat_byte i :: pat_from (i + 1) k end.
